@@ -56,8 +56,10 @@ def run(ctx):
     rules["TS-tagbit"] = tagbit_access(ctx, m)
     rules["IDX-ensure"] = loop_item_index(ctx, m)
     rules["SB-loopitem"] = loop_item_fields(ctx, m)
-    from rules.common import rule_stream_past
+    from rules.common import rule_stream_past, rule_out_params, rule_null_first
+    rules["NULL-first"] = rule_null_first(ctx, m, ["Value.hpp", "Template.hpp", "JSON.hpp", "HArray.hpp", "HList.hpp"])
     rules["ZB-past"] = rule_stream_past(ctx, m)
+    rules["OUT-def"] = rule_out_params(ctx, m, ["Value.hpp", "HashTable.hpp", "HArray.hpp", "HList.hpp", "Template.hpp", "Array.hpp"])
     from rules.progress import rule_progress
     rules["PROG"] = rule_progress(ctx, m, CONTRACTS, ["Template.hpp", "Finder.hpp", "StringUtils.hpp", "Digit.hpp", "QExpression.hpp", "Tags.hpp"], floor=55)
     return list(rules.values())
